@@ -332,7 +332,10 @@ def evaluate__exp(self: XPathFunction, context: ta.ContextType = None) -> ta.One
     arg: ta.NumericType = self.get_argument(self.context or context, cls=NumericProxy)
     if arg is None:
         return []
-    return math.exp(arg)
+    try:
+        return math.exp(arg)
+    except OverflowError as err:
+        raise self.error('FOAR0002', err) from None
 
 
 @method(function('exp10', prefix='math', nargs=1, sequence_types=('xs:double?', 'xs:double?')))
@@ -340,7 +343,10 @@ def evaluate__exp10(self: XPathFunction, context: ta.ContextType = None) -> ta.O
     arg: ta.NumericType = self.get_argument(self.context or context, cls=NumericProxy)
     if arg is None:
         return []
-    return float(10 ** arg)
+    try:
+        return float(10 ** arg)
+    except OverflowError as err:
+        raise self.error('FOAR0002', err) from None
 
 
 @method(function('log', prefix='math', nargs=1, sequence_types=('xs:double?', 'xs:double?')))
@@ -376,6 +382,8 @@ def evaluate__pow(self: XPathFunction, context: ta.ContextType = None) -> ta.One
         return float(x ** y)
     except TypeError:
         return math.nan
+    except OverflowError as err:
+        raise self.error('FOAR0002', err) from None
 
 
 @method(function('sqrt', prefix='math', nargs=1,
@@ -386,7 +394,10 @@ def evaluate__sqrt(self: XPathFunction, context: ta.ContextType = None) -> ta.On
         return []
     elif arg < 0:
         return math.nan
-    return math.sqrt(arg)
+    try:
+        return math.sqrt(arg)
+    except OverflowError as err:
+        raise self.error('FOAR0002', err) from None
 
 
 @method(function('sin', prefix='math', nargs=1,
@@ -395,9 +406,12 @@ def evaluate__sin(self: XPathFunction, context: ta.ContextType = None) -> ta.One
     arg: ta.NumericType | None = self.get_argument(self.context or context, cls=NumericProxy)
     if arg is None:
         return []
-    elif math.isinf(arg):
-        return math.nan
-    return math.sin(arg)
+    try:
+        if math.isinf(arg):
+            return math.nan
+        return math.sin(arg)
+    except OverflowError as err:
+        raise self.error('FOAR0002', err) from None
 
 
 @method(function('cos', prefix='math', nargs=1,
@@ -406,9 +420,12 @@ def evaluate__cos(self: XPathFunction, context: ta.ContextType = None) -> ta.One
     arg: ta.NumericType | None = self.get_argument(self.context or context, cls=NumericProxy)
     if arg is None:
         return []
-    elif math.isinf(arg):
-        return math.nan
-    return math.cos(arg)
+    try:
+        if math.isinf(arg):
+            return math.nan
+        return math.cos(arg)
+    except OverflowError as err:
+        raise self.error('FOAR0002', err) from None
 
 
 @method(function('tan', prefix='math', nargs=1,
@@ -417,9 +434,12 @@ def evaluate__tan(self: XPathFunction, context: ta.ContextType = None) -> ta.One
     arg: ta.NumericType | None = self.get_argument(self.context or context, cls=NumericProxy)
     if arg is None:
         return []
-    elif math.isinf(arg):
-        return math.nan
-    return math.tan(arg)
+    try:
+        if math.isinf(arg):
+            return math.nan
+        return math.tan(arg)
+    except OverflowError as err:
+        raise self.error('FOAR0002', err) from None
 
 
 @method(function('asin', prefix='math', nargs=1,
@@ -450,7 +470,10 @@ def evaluate__atan(self: XPathFunction, context: ta.ContextType = None) -> ta.On
     arg: ta.NumericType | None = self.get_argument(self.context or context, cls=NumericProxy)
     if arg is None:
         return []
-    return math.atan(arg)
+    try:
+        return math.atan(arg)
+    except OverflowError as err:
+        raise self.error('FOAR0002', err) from None
 
 
 @method(function('atan2', prefix='math', nargs=2,
@@ -461,7 +484,10 @@ def evaluate__atan2(self: XPathFunction, context: ta.ContextType = None) -> ta.O
 
     x = self.get_argument(context, cls=NumericProxy)
     y = self.get_argument(context, index=1, required=True, cls=NumericProxy)
-    return math.atan2(x, y)
+    try:
+        return math.atan2(x, y)
+    except OverflowError as err:
+        raise self.error('FOAR0002', err) from None
 
 
 ###
